@@ -46,19 +46,28 @@ func optimizerRemovalGuard(c *Ctx, g *load.G) (ok bool, detail string, cleanupOK
 		if !(before.holds("!ok("+recv+".ruleUsedByRules["+name+"])") && before.holds("!ok("+recv+".protectedRules["+name+"])")) {
 			bad = append(bad, "a rule is removed under ["+strings.Join(before.facts(), " ")+"], which does not include `not used by another rule` and `not protected`")
 		}
-		// clean-up: deletes after the removal
+		// clean-up: deletes after the removal. An entry is deleted from a user set exactly for the removed rule (named
+		// directly, or by a loop variable known to equal it); a user set is dropped only when it is found empty after
+		// such a deletion from it on the same path.
+		users := recv + ".ruleUsedByRules[#2]"
+		lastEntryDelete := -1
 		for i := ri + 1; i < len(p); i++ {
 			if p[i].Kind != "call" || !strings.HasPrefix(p[i].Text, "delete(") {
 				continue
 			}
 			facts := p[ri:i].facts()
 			switch {
-			case strings.HasPrefix(p[i].Text, "delete("+recv+".ruleUsedByRules[#2],#3)"):
+			case p[i].Text == "delete("+users+","+name+")":
+				lastEntryDelete = i
+			case strings.HasPrefix(p[i].Text, "delete("+users+",#3)"):
 				if !containsStr(facts, "#3=="+name) {
 					badClean = append(badClean, "an entry of a user set is deleted under ["+strings.Join(facts, " ")+"], not exactly for the removed rule")
+				} else {
+					lastEntryDelete = i
 				}
 			case strings.HasPrefix(p[i].Text, "delete("+recv+".ruleUsedByRules,#2)"):
-				if !containsStr(facts, "len("+recv+".ruleUsedByRules[#2])==0") || !containsStr(facts, "#3=="+name) {
+				emptyAfter := lastEntryDelete >= 0 && containsStr(p[lastEntryDelete:i].facts(), "len("+users+")==0")
+				if !emptyAfter {
 					badClean = append(badClean, "a user set is dropped under ["+strings.Join(facts, " ")+"], not exactly when it became empty by this removal")
 				}
 			default:
@@ -191,9 +200,23 @@ func optimizerInlineGuard(c *Ctx, g *load.G) (bool, string) {
 		for _, f := range before.facts() {
 			facts = append(facts, stripAsserts(strings.ReplaceAll(f, name, "NAME")))
 		}
-		need := []string{"ok(" + x + ".(*RuleRefExpr))", "ok(" + recv + ".rules[" + name + "])", "!ok(" + recv + ".ruleUsesRules[" + name + "])"}
-		for _, nd := range need {
-			if !before.holds(minParens(nd)) {
+		// the expression is a reference: by a checked assertion or by the clause of a type switch
+		isRef := before.holds("ok(" + x + ".(*RuleRefExpr))")
+		for _, e := range before {
+			if e.Kind == "tcase" && strings.HasSuffix(e.Text, ":*RuleRefExpr") {
+				isRef = true
+			}
+		}
+		if !isRef {
+			bad = append(bad, "a reference is inlined without `ok("+x+".(*RuleRefExpr))` (facts: "+abbreviate(strings.Join(before.facts(), " "))+")")
+		}
+		// the two lookups, whichever way the reference is named (asserted expression or type-switch variable)
+		stripped := map[string]bool{}
+		for _, f := range before.facts() {
+			stripped[minParens(stripAsserts(f))] = true
+		}
+		for _, nd := range []string{"ok(" + recv + ".rules[" + name + "])", "!ok(" + recv + ".ruleUsesRules[" + name + "])"} {
+			if !before.holds(minParens(nd)) && !stripped[minParens(stripAsserts(nd))] {
 				bad = append(bad, "a reference is inlined without `"+nd+"` (facts: "+abbreviate(strings.Join(before.facts(), " "))+")")
 			}
 		}
